@@ -70,7 +70,18 @@ theorem rt_dims (env : Env) (hlim : env.limit = none) (c : Bool) (dlen : Nat) (d
       have r2 := reads_decDims ds hds
       rw [hl] at r2
       have r3 := Reads.map (g := some) r2
-      exact Reads.congr (Reads.bind (f := fun _ => decDims dlen >>= fun a => pure (some a)) r1 r3) (by simp) rfl
+      have r4 := Reads.congr (Reads.bind (f := fun _ => decDims dlen >>= fun a => pure (some a)) r1 r3) (List.nil_append _) rfl
+      intro rest a
+      have hlen : (ds.flatMap (leBytes 4)).length = 4 * dlen := by
+        rw [← hl]
+        clear r2 r3 r4 hds hl
+        induction ds with
+        | nil => rfl
+        | cons d ds ih => simp [List.flatMap_cons, ih]; omega
+      have hc : ¬ dlen > (ds.flatMap (leBytes 4) ++ rest).length / 4 := by
+        rw [List.length_append, hlen]; omega
+      simp only [Dec.bind_apply, checkDimCount, hc, if_false]
+      exact r4 rest a
 
 theorem encVarValue_eq (tid k : Nat) (value : Val) (ht : tid ≠ 0) :
     encVarValue encT tid ⟨tid, k⟩ value =
@@ -219,7 +230,7 @@ theorem rt_variant (env : Env) (hlim : env.limit = none) (hrec : RecOk encT decT
     simp only [t0, if_true, Bool.and_eq_true, decide_eq_true_eq] at h
     obtain ⟨⟨rfl, rfl, rfl, rfl⟩, hv⟩ := h
     have hvn : value = .nil := by
-      cases value <;> first | rfl | simp at hv
+      cases value <;> first | rfl | simp [Val.isNil] at hv
     subst hvn
     refine ⟨leBytes 1 mask, by simp [encVariant, t0], ?_⟩
     unfold decVariant
@@ -382,7 +393,7 @@ theorem rt_extObj (env : Env) (fuel : Nat)
       simp only [if_true, Bool.and_eq_true] at h
       obtain ⟨hn, hv⟩ := h
       have hvn : value = .nil := by
-        cases value <;> first | rfl | simp at hv
+        cases value <;> first | rfl | simp [Val.isNil] at hv
       have hnn : vname = "" := by simpa using hn
       subst hvn hnn
       refine ⟨tb ++ leBytes 1 0, by simp [encExtObj, encTypeId, htb, isPanic], ?_⟩
@@ -392,6 +403,32 @@ theorem rt_extObj (env : Env) (fuel : Nat)
       simp only [if_true]
       exact Reads.ret _
     · simp only [m0, if_false] at h
+      by_cases hnv : (vname.isEmpty && value.isNil) = true
+      · -- no value (unknown type id / no body): a null body
+        simp only [Bool.and_eq_true] at hnv
+        have hvn : value = .nil := by
+          cases value <;> first | rfl | simp [Val.isNil] at hnv
+        have hnn : vname = "" := by simpa using hnv.1
+        subst hvn hnn
+        refine ⟨tb ++ leBytes 1 mask ++ leBytes 4 null32, by simp [encExtObj, encTypeId, htb, isPanic, m0, Val.isNil], ?_⟩
+        unfold decExtObj
+        have hassoc : tb ++ leBytes 1 mask ++ leBytes 4 null32 = tb ++ (leBytes 1 mask ++ (leBytes 4 null32 ++ [])) := by simp
+        rw [hassoc]
+        refine Reads.bind rt ?_
+        refine Reads.bind rm ?_
+        simp only [m0, if_false]
+        refine Reads.bind (reads_readUInt 4 null32 (by decide)) ?_
+        simp only [or_true, if_true]
+        refine Reads.congr (Reads.ret _) rfl ?_
+        have hp : ∀ e', norm env fuel (.ptr e') .nil = .nil := by
+          intro e'; cases fuel <;> simp [norm]
+        have hx : norm env fuel xmlElementPtr .nil = .nil := hp _
+        simp only [Option.map_some, hx]
+        cases lookupName env "" with
+        | none => simp
+        | some i => simp [hp]
+      have hnv' : ¬ (vname.isEmpty = true ∧ value.isNil = true) := by simpa using hnv
+      simp only [Bool.and_eq_true, hnv', if_false] at h
       by_cases m2 : mask = 2
       · subst m2
         simp only [if_true, Bool.and_eq_true, beq_iff_eq] at h
@@ -402,7 +439,7 @@ theorem rt_extObj (env : Env) (fuel : Nat)
         rw [hb] at hb'
         cases hb'
         refine ⟨tb ++ leBytes 1 2 ++ leBytes 4 body.length ++ body, ?_, ?_⟩
-        · simp [encExtObj, encTypeId, htb, isPanic, encExtBody, hb, xmlName]
+        · simp [encExtObj, encTypeId, htb, isPanic, encExtBody, hb, xmlName, Val.isNil]
         · unfold decExtObj
           have hassoc : tb ++ leBytes 1 2 ++ leBytes 4 body.length ++ body
               = tb ++ (leBytes 1 2 ++ (leBytes 4 body.length ++ body)) := by simp
@@ -431,7 +468,7 @@ theorem rt_extObj (env : Env) (fuel : Nat)
               | succ n => cases value <;> simp [wt] at hw; exact ⟨_, rfl⟩
             obtain ⟨x, rfl⟩ := hvp
             refine ⟨tb ++ leBytes 1 mask ++ leBytes 4 body.length ++ body, ?_, ?_⟩
-            · simp [encExtObj, encTypeId, htb, isPanic, m0, encExtBody, hxn, hl, hb]
+            · simp [encExtObj, encTypeId, htb, isPanic, m0, encExtBody, hxn, hl, hb, Val.isNil]
             · unfold decExtObj
               have hassoc : tb ++ leBytes 1 mask ++ leBytes 4 body.length ++ body
                   = tb ++ (leBytes 1 mask ++ (leBytes 4 body.length ++ body)) := by simp
